@@ -47,7 +47,8 @@ def ints_biased(lo: int, hi: int, units: Sequence[int] = (1,), beyond: float = 0
         parts.append(st.integers(xlo, lo))
         parts.append(st.integers(hi, xhi))
     # small magnitudes
-    parts.append(st.integers(max(xlo, -1000), min(xhi, 1000)))
+    if max(xlo, -1000) <= min(xhi, 1000):
+        parts.append(st.integers(max(xlo, -1000), min(xhi, 1000)))
     return st.one_of(parts)
 
 
